@@ -99,3 +99,9 @@ Definition run_big (s : setting) (parts : list (N * N)) : obs :=
 Definition run_checkout_big (s : setting) (parts : list (N * N)) : obs :=
   let x := expand parts in
   OL [digest (writer s x); obool (bytes_eqb (reader s (writer s x)) x)].
+
+(* internal_size_sha_file_byname on the written file: canonical size, and the sha1 is that of the
+   canonical bytes (SHA-1 itself is not modelled: the harness compares with hashlib on reader(disk)) *)
+Definition run_sha_big (s : setting) (parts : list (N * N)) : obs :=
+  let x := expand parts in
+  OL [oN (N.of_nat (List.length (reader s (writer s x)))); obool true].
